@@ -1,7 +1,20 @@
 #!/bin/sh
-# Offline setup: compile the harness once so later builds are warm.
+# Offline setup: compile the harness once in every variant the checks use (plain, overlay, -race)
+# so that later builds are warm. Everything comes from files on disk.
 export GOFLAGS=-mod=mod GOPROXY=off GOSUMDB=off GOTOOLCHAIN=local
 HERE=$(cd "$(dirname "$0")" && pwd)
 cd "$HERE/harness" || exit 1
 mkdir -p "$HERE/.build" "$HERE/evidence" "$HERE/replays"
-go build -o "$HERE/.build/verif.setup" ./cmd/verif && rm -f "$HERE/.build/verif.setup"
+T="$HERE/.build/setup.$$"
+mkdir -p "$T"
+trap 'rm -rf "$T"' EXIT
+go build -o "$T/verif" ./cmd/verif || exit 1
+go build -o "$T/instr" ./cmd/instr || exit 1
+for mode in time yield; do
+  "$T/instr" -repo /repo -out "$T/ov-$mode" -mode "$mode" >/dev/null || exit 1
+  go build -overlay "$T/ov-$mode/overlay.json" -o "$T/verif-$mode" ./cmd/verif || exit 1
+done
+# the race detector needs cgo; if it is unavailable C16 reports the race pass as skipped
+go build -race -o "$T/verif-race" ./cmd/verif 2>/dev/null || echo "note: -race build unavailable"
+(cd /repo && go build -o "$T/check" ./tools/check) || exit 1
+exit 0
